@@ -46,7 +46,7 @@ func (d *drv) txnSummary(hash string) (*transaction.TransactionSummary, error) {
 func (d *drv) play(o op) {
 	switch o.Op {
 	case "produce":
-		d.produce(o.R, o.N, o.Fork)
+		d.produce(o.R, o.N, o.Fork, o.MB)
 	case "deliver":
 		d.deliver(o.B)
 	case "finround":
@@ -191,11 +191,6 @@ func (d *drv) restart() {
 		d.deliv[lfbName] = true
 		return nil
 	})
-	for q := 1; q <= d.maxR; q++ {
-		if d.rounds[q] == nil {
-			d.addRound(q)
-		}
-	}
 	d.emit(rec.M{"ev": "Restart", "res": res, "lfb": lfbName, "stored": stored}, "restart/"+res, true)
 }
 
@@ -308,7 +303,11 @@ func (d *drv) read(kind, arg string) {
 	ctx, cancel := context.WithTimeout(d.ctx, 20*time.Second)
 	defer cancel()
 	lfb := d.c.GetLatestFinalizedBlock()
-	m := rec.M{"ev": "Read", "kind": kind, "arg": arg, "lfbr": lfb.Round}
+	argn := -1
+	if _, err := fmt.Sscanf(arg, "%d", &argn); err != nil {
+		argn = -1
+	}
+	m := rec.M{"ev": "Read", "kind": kind, "arg": arg, "argn": argn, "lfbr": lfb.Round}
 	var out interface{}
 	var err error
 	var served *block.Block
@@ -321,7 +320,7 @@ func (d *drv) read(kind, arg string) {
 		case "header_round":
 			out, err = sharder.BlockHandler(ctx, get("/v1/block/get", url.Values{"round": {arg}}))
 		case "mb": // arg = relative magic block number (1 = genesis)
-			out, err = sharder.MagicBlockHandler(ctx, get("/v1/block/magic/get", url.Values{"magic_block_number": {fmt.Sprint(d.mbN - 1 + int64(atoi(arg)))}}))
+			out, err = sharder.MagicBlockHandler(ctx, get("/v1/block/magic/get", url.Values{"magic_block_number": {d.mbNumber(atoi(arg))}}))
 		case "lfb":
 			out, err = sharder.LatestFinalizedBlockHandler(d.sc)(ctx, get("/v1/_m2s/block/latest_finalized/get", url.Values{}))
 		case "s2s_round":
@@ -389,6 +388,12 @@ func (d *drv) read(kind, arg string) {
 	if _, ok := m["b_hdr"]; !ok {
 		m["b_hdr"] = "none"
 	}
+	if res == "ok" && served == nil && m["b_hdr"] == "none" {
+		// the handler answered without error and without content (BlockHandler with a block that is neither in
+		// memory nor looked up in the store because the LFB round is 0 answers {"block": null})
+		res = "nil"
+		m["res"] = res
+	}
 	d.blockFields(m, served)
 	if served != nil {
 		m["round"], m["ntx"] = served.Round, len(served.Txns)
@@ -408,6 +413,14 @@ func (d *drv) inMemory(name string) bool {
 	}
 	_, err := d.c.GetBlock(d.ctx, b.Hash)
 	return err == nil
+}
+
+// mbNumber: the real number of the i-th magic block of the trace (1 = genesis); an unused number otherwise
+func (d *drv) mbNumber(i int) string {
+	if i >= 1 && i <= len(d.mbNums) {
+		return fmt.Sprint(d.mbNums[i-1])
+	}
+	return "999999"
 }
 
 func atoi(s string) int {
@@ -482,51 +495,79 @@ func (d *drv) randomRead() {
 }
 
 func (d *drv) random(id int, a common.Args) {
-	maxR := 6 + d.r.Intn(4)
+	maxR := 6 + d.r.Intn(5)
 	repl := []int{0, 0, 1, 2, 3}[d.r.Intn(5)]
 	batch := 1 + d.r.Intn(3)
 	d.reset(id, "random", maxR, repl, batch, rec.M{"seed": a.Seed, "steps": a.Steps})
-	faulty := d.r.Intn(3) // 0: plain finalization and reads, 1: crashes, 2: crashes + repair
+	// blocks that carry a magic block change process-wide node objects when they are finalized (SetupNodes), which
+	// leaks from one trace into the next: only on request
+	withMB := d.r.Intn(2) == 0 && os.Getenv("VERIF_SF_MB") != ""
+	faulty := d.r.Intn(3)        // 0: plain finalization and reads, 1: crashes, 2: crashes + losses + repair
+	missing := func() []string { // blocks above the LFB that are not in memory, lowest round first
+		lfbr := d.c.GetLatestFinalizedBlock().Round
+		var miss []string
+		for q := 1; q < len(d.canon); q++ {
+			if n := fmt.Sprintf("b%d", q); !d.deliv[n] && d.canon[q].Round > lfbr {
+				miss = append(miss, n)
+			}
+		}
+		for _, n := range d.order {
+			if n[0] == 'f' && !d.deliv[n] && d.blocks[n].Round > lfbr {
+				miss = append(miss, n)
+			}
+		}
+		return miss
+	}
 	for i := 0; i < a.Steps; i++ {
 		tip := len(d.canon) - 1
 		lfbr := int(d.c.GetLatestFinalizedBlock().Round)
-		switch x := d.r.Intn(20); {
-		case x < 5: // the miners go on
+		x := d.r.Intn(100)
+		switch {
+		case x < 28: // the miners go on
 			if tip < maxR {
-				n := d.produce(tip+1, []int{0, 1, 1, 2, 3}[d.r.Intn(5)], false)
-				if n != "" && d.r.Intn(4) > 0 {
+				if n := d.produce(tip+1, []int{0, 1, 1, 2, 3}[d.r.Intn(5)], false, withMB && d.r.Intn(4) == 0); n != "" && d.r.Intn(7) > 0 {
 					d.deliver(n)
 				}
+			} else {
+				d.randomRead()
 			}
-		case x < 6:
+		case x < 32:
 			if tip >= 1 {
-				q := 1 + d.r.Intn(tip)
+				q := lfbr + 1 + d.r.Intn(tip-lfbr+1)
+				if q > tip {
+					q = tip
+				}
 				if n := d.produce(q, d.r.Intn(3), true); n != "" && d.r.Intn(2) == 0 {
 					d.deliver(n)
 				}
 			}
-		case x < 8: // a block that is still missing in memory arrives
-			var miss []string
-			for _, n := range d.order {
-				if !d.deliv[n] && int(d.blocks[n].Round) > lfbr {
-					miss = append(miss, n)
+		case x < 42: // blocks that are still missing in memory arrive (in round order)
+			miss := missing()
+			if len(miss) > 0 {
+				k := 1
+				if d.r.Intn(2) == 0 {
+					k = len(miss)
+				}
+				for _, n := range miss[:k] {
+					d.deliver(n)
 				}
 			}
-			if len(miss) > 0 {
-				d.deliver(miss[0])
-			}
-		case x < 11:
+		case x < 60:
+			// finalizeRound(q) finalizes the blocks up to round q-3 ("at least 3 confirmations") if the chain from
+			// round q-1 back to the LFB is at most 5 blocks long (lfb_ticket.ahead): q in lfb+4 .. lfb+6 makes progress
 			if tip >= 1 {
-				// finalizeRound(q) finalizes blocks up to round q-3 ("at least 3 confirmations")
-				q := lfbr + 2 + d.r.Intn(4)
+				q := lfbr + 4 + d.r.Intn(3)
+				if d.r.Intn(5) == 0 {
+					q = lfbr + 1 + d.r.Intn(tip-lfbr+1)
+				}
 				if q > tip {
 					q = tip
 				}
 				d.finround(q)
 			}
-		case x < 12 && faulty >= 1:
+		case x < 64 && faulty >= 1:
 			// crash around UpdateFinalizedBlock of the next block to finalize
-			if nb := fmt.Sprintf("b%d", lfbr+1); d.deliv[nb] && nb != "b0" {
+			if nb := fmt.Sprintf("b%d", lfbr+1); d.deliv[nb] {
 				if d.r.Intn(3) == 0 {
 					d.ufbDirect(nb)
 				} else {
@@ -536,15 +577,15 @@ func (d *drv) random(id int, a common.Args) {
 				}
 				d.restart()
 			}
-		case x < 13 && faulty >= 1:
+		case x < 66 && faulty >= 1:
 			d.restart()
-		case x < 14 && faulty >= 2:
+		case x < 69 && faulty >= 2:
 			d.setPeers(d.r.Intn(3) > 0)
-		case x < 15 && faulty >= 2:
+		case x < 71 && faulty >= 2:
 			d.loseFile(d.order[d.r.Intn(len(d.order))])
-		case x < 16 && faulty >= 2:
-			d.hc(d.r.Intn(maxR+1), []string{"proximity", "deep"}[d.r.Intn(2)])
-		case x < 17 && faulty >= 2:
+		case x < 78 && faulty >= 2:
+			d.hc(min(d.r.Intn(tip+2), maxR), []string{"proximity", "deep"}[d.r.Intn(2)])
+		case x < 81 && faulty >= 2:
 			d.hcCycle([]string{"proximity", "deep"}[d.r.Intn(2)])
 		default:
 			d.randomRead()
